@@ -395,6 +395,8 @@ func c08(c *Ctx) (*report.Result, error) {
 	}
 	checkShardKeyFunction(c, res, "O8.9")
 	checkRegistrationNotifies(c, res, "O8.10")
+	res.RuleDoc["O8.11"] = "no swallowed error in the files the mechanism lives in: no function returns a nil error on a path on which an error obtained from a call is known to be non-nil (io.EOF from a stream Recv, the normal end of a receive loop, is the one accepted idiom)"
+	checkNoSwallowedErrors(c, res, "O8.11", []string{"proxy/proxy_streams.go", "proxy/intra_proxy_router.go", "proxy/shard_manager.go"})
 	return res, nil
 }
 
